@@ -112,8 +112,21 @@ class Check:
         self.obls.append(o)
         return o
 
-    def prove(self, name, fkey, pc, goal, timeout_ms=None, replay=None):
-        """pc: list of sympy booleans; goal: sympy boolean."""
+    @property
+    def bounded_tier(self):
+        """tier of the bounded stand-ins: when a deductive obligation could not be decided on this tree (the verified code
+        left the engine's subset, or a solver gave up) the stand-ins run their thorough corpus even in the quick tier"""
+        if self.tier == "thorough" or self.out_of_reach or any(o.status == "unknown" for o in self.obls):
+            if self.tier != "thorough" and not getattr(self, "_escalation_noted", False):
+                self._escalation_noted = True
+                self.notes.append("bounded stand-ins escalated to the thorough corpus because a deductive obligation was undecided")
+            return "thorough"
+        return "quick"
+
+    def prove(self, name, fkey, pc, goal, timeout_ms=None, replay=None, abstracted=False):
+        """pc: list of sympy booleans; goal: sympy boolean.
+        abstracted: the hypotheses are an over-approximation of the path condition (terms replaced by unconstrained
+        symbols): a proof stands, a counter-model only if its replay reproduces on the real code (otherwise undecided)."""
         o = self._new(name, fkey)
         o.goal = _short(goal)
         o.pc = _short(sp.And(*pc)) if pc else "True"
@@ -145,6 +158,15 @@ class Check:
                     o.status, o.model, o.backend = "refuted", m, "z3-model-of-hypotheses+evaluation"
                 else:
                     o.status = "unknown"
+        if abstracted and o.status == "refuted":
+            ok = False
+            if replay is not None:
+                try:
+                    ok = bool(replay(o.model or {})[0])
+                except Exception:  # noqa: BLE001
+                    ok = False
+            if not ok:
+                o.status, o.detail = "unknown", "counter-model of an over-approximated path condition did not replay"
         o.time_s = time.time() - t0
         self._after(o)
         return o
@@ -199,7 +221,18 @@ class Check:
             return o
         return self.prove(name, fkey, pc, sp.Equivalent(a, b), timeout_ms=timeout_ms, replay=replay)
 
-    def record(self, name, fkey, status, backend, detail="", model=None, replay=None, goal="", kind="deductive"):
+    def record(self, name, fkey, status, backend, detail="", model=None, replay=None, goal="", kind="deductive", abstracted=False):
+        """abstracted: a 'refuted' verdict comes from a structural comparison that can fail for code that is nevertheless
+        right; it stands only if the replay reproduces on the real code (otherwise undecided)"""
+        if abstracted and status == "refuted":
+            ok = False
+            if replay is not None:
+                try:
+                    ok = bool(replay(model or {})[0])
+                except Exception:  # noqa: BLE001
+                    ok = False
+            if not ok:
+                status, detail = "unknown", (str(detail) + " [structural mismatch did not replay on the real code]")[:300]
         o = self._new(name, fkey, kind)
         o.status, o.backend, o.detail, o.model, o.replay, o.goal = status, backend, detail, model, replay, goal
         self._after(o)
